@@ -207,7 +207,8 @@ def interpose(cls, names):
     cls._mc_interposed = names
 
 
-def explore_schedules(harness, bound, max_exec=None, on_exec=None, horizon=5000):
+def explore_schedules(harness, bound, max_exec=None, on_exec=None, horizon=5000, first_dev_range=None,
+                      deviation_cost="preemption"):
     """DFS over schedules with at most ``bound`` preemptions.
 
     ``harness()`` must create a fresh world + scheduler-independent objects and
@@ -242,15 +243,20 @@ def explore_schedules(harness, bound, max_exec=None, on_exec=None, horizon=5000)
             stats["capped"] = True
             break
         # children: deviate at every point after the prefix
+        # cost model: "preemption" = only switching away from a still-enabled thread costs (CHESS);
+        # "deviation" = every non-default choice costs 1 (also the free choice of who runs when the current thread blocks)
+        every = deviation_cost == "deviation"
         pre = 0
         pre_at = []
         for (n, k, ce) in s.trace:
             pre_at.append(pre)
-            if k > 0 and ce:
+            if k > 0 and (ce or every):
                 pre += 1
         for i in range(len(s.trace) - 1, len(prefix) - 1, -1):
+            if not prefix and first_dev_range is not None and not (first_dev_range[0] <= i < first_dev_range[1]):
+                continue        # partition of the schedule space by the position of the first deviation
             n, k, ce = s.trace[i]
-            cost = pre_at[i] + (1 if ce else 0)
+            cost = pre_at[i] + (1 if (ce or every) else 0)
             if cost > bound:
                 continue
             base = [t[1] for t in s.trace[:i]]
